@@ -108,7 +108,8 @@ def cross_check(smt_dir, k):
     if not files:
         return dict(checked=0, agreed=0, undecided=0, disagreed=[])
     step = max(1, len(files) // k)
-    sample = files[::step][:k]
+    first = int(os.environ.get("VERIF_SEED", "0")) % step
+    sample = files[first::step][:k]
     out = dict(checked=0, agreed=0, undecided=0, disagreed=[])
     for f in sample:
         path = os.path.join(smt_dir, f)
@@ -162,7 +163,7 @@ def run_job_s(job, exe, tier, idx, pid, pool=None):
     """one Route S obligation run (optionally split into parts explored by separate processes)"""
     os.makedirs(os.path.join(OUT, pid), exist_ok=True)
     split = int(job.get("split", 1))
-    base = [exe, "--cfg", cfg_str(job["cfg"]),
+    base = [exe, "--cfg", cfg_str(job["cfg"]), "--seed", os.environ.get("VERIF_SEED", "0"),
             "--timeout-ms", str(job.get("timeout_ms", 180000 if tier == "quick" else 600000)),
             "--budget-s", str(job.get("budget_s", 600 if tier == "quick" else 6000))]
     wall_limit = job.get("wall_s", 900 if tier == "quick" else 7200)
